@@ -287,6 +287,8 @@ theorem denNZ_sumSimplify {e : Expr} {rs : List Var} (he : DenNZ env σ' e) : De
   split
   · simp only
     split
+    · exact denNZ_sum_iff.mpr he
+    split
     · simp
     · split
       · exact denNZ_sumSafe0 (by simp)
